@@ -310,8 +310,15 @@ def run(ctx):
         t = astq.call_text(c)
         return t.endswith("acquire_and_get") or t.endswith("set_and_release")
 
-    rel = compute_relevant([fi.node], is_event)
-    outs, it = run_function(m, fi, rule, f"{CN}.HTTPSConnection", relevant=rel | {"target_supports_http2"}, track_faults=True)
+    # private helpers of the connection (an extracted probe-origin / callback / transport step) are interpreted in place
+    inl6 = frozenset(q_ for q_ in helper_closure(m, [fi], stop=("_connect_tls_proxy", "_tunnel", "_new_conn")) - {fi.qual})
+    fns6 = [fi.node] + [m.funcs[q_].node for q_ in inl6]
+    rel = compute_relevant(fns6, is_event)
+    probe_names = {n_.id for f_ in fns6 for n_ in ast.walk(f_) if isinstance(n_, ast.Name) and "http2" in n_.id}
+    # locals that hold the (default: absent) test-only connect callback
+    probe_names |= {t_.id for f_ in fns6 for n_ in ast.walk(f_) if isinstance(n_, ast.Assign) and astq.text(n_.value) == "self._connect_callback"
+                    for t_ in n_.targets if isinstance(t_, ast.Name)}
+    outs, it = run_function(m, fi, rule, f"{CN}.HTTPSConnection", inline=inl6, relevant=rel | {"target_supports_http2"} | probe_names, track_faults=True)
     ctx.states += it.budget.steps
     if not rule.seen.get("acquire") or not rule.seen.get("release"):
         raise AnalysisError("C02-R6: acquire_and_get / set_and_release events not met in HTTPSConnection.connect")
